@@ -304,12 +304,16 @@ def ratArith : Arith Rat where
   lt := ltb
   isZero := fun a => decide (a = 0)
 
+/-- Relative deviation of the load `L` from the ideal load `T/K`, in lowest
+form: `(K·L − T)/T`. -/
+def relDev (k : Nat) (T L : Int) : Rat := ((k : Rat) * (L : Rat) - (T : Rat)) / (T : Rat)
+
 /-- `(L - T/K) / (T/K) = (K·L - T) / T`. -/
 theorem rel_dev_eq (L T : Int) (k : Nat) (hk : 0 < k) (hT : T ≠ 0) :
-    (((L : Rat) - (T : Rat) / (k : Rat)) / ((T : Rat) / (k : Rat))) =
-      ((k : Rat) * (L : Rat) - (T : Rat)) / (T : Rat) := by
+    (((L : Rat) - (T : Rat) / (k : Rat)) / ((T : Rat) / (k : Rat))) = relDev k T L := by
   have hk' : (k : Rat) ≠ 0 := by exact_mod_cast (by omega : k ≠ 0)
   have hT' : (T : Rat) ≠ 0 := by exact_mod_cast hT
+  unfold relDev
   field_simp
 
 end Coupe.Metrics
